@@ -218,3 +218,4 @@ MANIFEST = {
             'enumerating back end (cross-checked against CBC in the thorough tier).',
 }
 MANIFEST['text'] += (' ' + 'Minimising criteria are mostly run on instances where lower quotas or -stab force students in (otherwise the empty matching is trivially optimal); cases may carry decoy objects or earlier solves.')
+MANIFEST['text'] += (' ' + '12% of the size/profile/cost cases run -stab on size-gadget instances (stable matchings of different sizes by construction); lecturer multipliers are also given on one-sided runs, where they must weigh nothing; a 6% metamorphic kind solves the same case on real CBC with and without the threads parameter.')
